@@ -446,4 +446,149 @@ theorem reissue_core (s : State) (p : Nat) (e : Err) (w : Worker) (job : Job)
            refine ⟨_, mem_insertJob _ _, rfl, rfl, ?_⟩
            simp only [List.lookup, beq_self_eq_true])
 
+/-! ### where a nil verdict can come from -/
+
+theorem hardCheck_no_ok (s : State) (bn : Nat) (bp : Batch) (pr : Bool) (outs : List Out) (b : Nat)
+    (h : Out.verdict b (.res .ok) ∈ (hardCheck s bn bp pr outs).2) : Out.verdict b (.res .ok) ∈ outs := by
+  unfold hardCheck at h
+  split at h
+  · simp only [List.mem_append, List.mem_singleton, Out.verdict.injEq, Verdict.res.injEq] at h
+    cases h with
+    | inl h => exact h
+    | inr h => exact absurd h.2 (by decide)
+  · split at h <;> exact h
+
+theorem stepResult_ok_verdict (s : State) (p : Nat) (e : Err) (b : Nat)
+    (h : Out.verdict b (.res .ok) ∈ (stepResult s p e).2) :
+    ∃ w job bp, e = .ok ∧ findW s.workers p = some w ∧ w.active = some job ∧
+      b = (s.queries.lookup job.idx).getD 0 ∧ findB s.batches b = some bp ∧ bp.rem = 1 ∧
+      job.idx ∈ (stepResult s p e).1.okd := by
+  unfold stepResult at h
+  cases hw : findW s.workers p with
+  | none => simp only [hw, List.mem_singleton] at h; cases h
+  | some w =>
+    cases ha : w.active with
+    | none => simp only [hw, ha, List.mem_singleton] at h; cases h
+    | some job =>
+      simp only [hw, ha] at h
+      cases hf : findB s.batches ((s.queries.lookup job.idx).getD 0) with
+      | none => simp only [hf, List.mem_singleton] at h; cases h
+      | some bp =>
+        simp only [hf] at h
+        cases e with
+        | ok =>
+          simp only [] at h
+          by_cases hr : (bp.rem == 1) = true
+          · rw [if_pos hr] at h
+            simp only [List.mem_cons, List.mem_nil_iff, or_false, Out.verdict.injEq, and_true] at h
+            cases h with
+            | inl h => cases h
+            | inr h =>
+              refine ⟨w, job, bp, rfl, rfl, ha, h, ?_, ?_, ?_⟩
+              · rw [h]; exact hf
+              · simpa using hr
+              · simp only [stepResult, hw, ha, hf, hr, ↓reduceIte, emit, List.mem_cons, true_or]
+          · rw [if_neg hr] at h
+            have := hardCheck_no_ok _ _ _ _ _ _ h
+            simp only [List.mem_singleton] at this; cases this
+        | canceled =>
+          simp only [List.mem_cons, List.mem_nil_iff, or_false, Out.verdict.injEq, Verdict.res.injEq] at h
+          cases h with
+          | inl h => cases h
+          | inr h => exact absurd h.2 (by decide)
+        | timeout =>
+          dsimp only at h
+          generalize (if bp.noRetryMax = true then job.tries else job.tries + 1) = tr at h
+          by_cases hc : (!bp.noRetryMax && decide (tr ≥ bp.maxRetries)) = true
+          · rw [if_pos hc] at h
+            simp only [List.mem_cons, List.mem_nil_iff, or_false, Out.verdict.injEq, Verdict.res.injEq] at h
+            rcases h with h | h | h
+            · cases h
+            · exact absurd h.2 (by decide)
+            · cases h
+          · rw [if_neg hc] at h
+            have := hardCheck_no_ok _ _ _ _ _ _ h
+            simp only [List.mem_singleton] at this; cases this
+        | disconnected =>
+          dsimp only at h
+          generalize (if bp.noRetryMax = true then job.tries else job.tries + 1) = tr at h
+          by_cases hc : (!bp.noRetryMax && decide (tr ≥ bp.maxRetries)) = true
+          · rw [if_pos hc] at h
+            simp only [List.mem_cons, List.mem_nil_iff, or_false, Out.verdict.injEq, Verdict.res.injEq] at h
+            rcases h with h | h | h
+            · cases h
+            · exact absurd h.2 (by decide)
+            · cases h
+          · rw [if_neg hc] at h
+            have := hardCheck_no_ok _ _ _ _ _ _ h
+            simp only [List.mem_singleton] at this; cases this
+        | other =>
+          dsimp only at h
+          generalize (if bp.noRetryMax = true then job.tries else job.tries + 1) = tr at h
+          by_cases hc : (!bp.noRetryMax && decide (tr ≥ bp.maxRetries)) = true
+          · rw [if_pos hc] at h
+            simp only [List.mem_cons, List.mem_nil_iff, or_false, Out.verdict.injEq, Verdict.res.injEq] at h
+            rcases h with h | h | h
+            · cases h
+            · exact absurd h.2 (by decide)
+            · cases h
+          · rw [if_neg hc] at h
+            have := hardCheck_no_ok _ _ _ _ _ _ h
+            simp only [List.mem_singleton] at this; cases this
+
+theorem step_ok_verdict (s : State) (e : Ev) (b : Nat)
+    (h : Out.verdict b (.res .ok) ∈ (step s e).2) :
+    ∃ p w job bp, e = .result p .ok ∧ s.quit = false ∧ findW s.workers p = some w ∧ w.active = some job ∧
+      b = (s.queries.lookup job.idx).getD 0 ∧ findB s.batches b = some bp ∧ bp.rem = 1 ∧
+      job.idx ∈ (step s e).1.okd := by
+  unfold step at h
+  by_cases hq : s.quit = true
+  · simp only [hq, ↓reduceIte] at h
+    cases e <;> simp only [stepLate, List.mem_singleton, Out.verdict.injEq, reduceCtorEq, and_false] at h
+  · have hq' : s.quit = false := by cases hh : s.quit <;> simp_all
+    simp only [hq', Bool.false_eq_true, ↓reduceIte] at h
+    cases e with
+    | quit =>
+      simp only [stepQuit, List.mem_map, Out.verdict.injEq, reduceCtorEq, and_false, exists_false] at h
+    | exit p =>
+      simp only [stepExit] at h
+      split at h <;> simp only [List.mem_singleton, List.mem_nil_iff, reduceCtorEq] at h
+    | elapse b' => simp only [List.mem_nil_iff] at h
+    | accept p =>
+      simp only [stepAccept] at h
+      split at h
+      · simp only [List.mem_singleton, reduceCtorEq] at h
+      · split at h <;> simp only [List.mem_singleton, reduceCtorEq] at h
+    | newBatch n nrm mr pr hn =>
+      dsimp only at h
+      split at h
+      · simp only [List.mem_singleton, reduceCtorEq] at h
+      · simp only [stepNewBatch, List.mem_nil_iff] at h
+    | peer p =>
+      dsimp only at h
+      split at h
+      · simp only [List.mem_singleton, reduceCtorEq] at h
+      · simp only [stepPeer, List.mem_nil_iff] at h
+    | wake b' g =>
+      dsimp only at h
+      split at h
+      · simp only [List.mem_singleton, reduceCtorEq] at h
+      · simp only [stepWake] at h
+        split at h
+        · simp only [List.mem_nil_iff] at h
+        · split at h
+          · simp only [List.mem_nil_iff] at h
+          · simp only [List.mem_singleton, Out.verdict.injEq, Verdict.res.injEq, reduceCtorEq, and_false] at h
+    | result p err =>
+      dsimp only at h
+      by_cases ho : offering s = true
+      · rw [if_pos ho] at h
+        simp only [List.mem_singleton, reduceCtorEq] at h
+      · rw [if_neg ho] at h
+        obtain ⟨w, job, bp, he, h1, h2, h3, h4, h5, h6⟩ := stepResult_ok_verdict s p err b h
+        subst he
+        refine ⟨p, w, job, bp, rfl, hq', h1, h2, h3, h4, h5, ?_⟩
+        simp only [step, hq', Bool.false_eq_true, ↓reduceIte, ho]
+        exact h6
+
 end Neutrino.Disp
